@@ -78,7 +78,7 @@ Section Ecdsa.
         end
     end.
 
-  Definition sign (d e k : Z) : option sig :=
+  Definition ecdsa_sign (d e k : Z) : option sig :=
     match sign_rs d e k with
     | None => None
     | Some (r, s) =>
@@ -101,7 +101,7 @@ Section Ecdsa.
   Definition is_normalized (s : Z) : bool := s <=? negn s.
 
   (* Verifier.Verify; strict = VerifyNonMalleably; the key is d·G with d in [1,n-1] *)
-  Definition verify (strict : bool) (sg : sig) (d e : Z) : bool :=
+  Definition ecdsa_verify (strict : bool) (sg : sig) (d e : Z) : bool :=
     if strict && negb (is_normalized (ss sg)) then false
     else
       match sv sg with
